@@ -218,3 +218,76 @@ class FlowSample(Contract):
 class FlowJaxSample(FlowSample):
     cls = "FlowJax"
     module = "flows.jax.flows"
+
+
+# ------------------------------------------------------------------------------------------------------------------
+# C13: the saved torch flow records the precision it actually runs in (reload does not depend on the loading process' defaults)
+# ------------------------------------------------------------------------------------------------------------------
+class TorchFlowSaveDtype(Contract):
+    qual = "flows.torch.flows:BaseTorchFlow.save"
+    properties = ("C13", "C15")
+    doc = ("the configuration written next to the weights names the floating-point width the flow actually uses: the constructor's dtype argument when one "
+           "was given, the resolved default otherwise - never 'unspecified'")
+
+    def must_return(self, shape):
+        return True
+
+    def shapes(self):
+        return [{"cfg": c, "actual": w} for c in ("None", "float32", "float64", "torch.float64") for w in (32, 64)
+                if not (c in ("float32",) and w == 64) and not (c in ("float64", "torch.float64") and w == 32)]
+
+    def setup(self, I, shape):
+        from contracts.dtypes import dt, ns
+        from contracts.io import mk_group
+        cfgd = {"None": NONE, "float32": Str("float32"), "float64": Str("float64"), "torch.float64": dt("torch", 64)}[shape["cfg"]]
+        cfg = PyDict({"dims": IV(z3.Int("dims")), "device": Str("cpu"), "dtype": cfgd, "data_transform": NONE, "seed": IV(0)})
+        fl = Obj("TorchModuleStub", {})
+        I.reg.handlers["TorchModuleStub.state_dict"] = lambda I2, a, k, n: PyDict({})
+        o = Obj("BaseTorchFlow", {"dtype": dt("torch", shape["actual"]), "device": Str("cpu"), "_flow": fl, "xp": ns("torch")})
+        o.f["config_dict"] = Fn(lambda I2, a, k, n: PyDict(dict(cfg.d)), "config_dict(recorded constructor arguments)")
+        root = mk_group("/")
+        h5 = Obj("H5File", {"root": root, "mode": Str("a"), "closed": B(False), "path": Str("f.h5")})
+        return Pre(o, [h5], {}, ghost={"root": root, "shape": shape, "h5": h5})
+
+    def post(self, I, pre, r):
+        p, g = I.path, pre.ghost
+        q, sh = self.qual, g["shape"]
+        tag = f"[constructor dtype {sh['cfg']}, flow runs in float{sh['actual']}]"
+        load = I.front.get("utils:load_from_h5_file")
+        grp = g["root"].f["members"].d.get("flow")
+        p.prove(z3.BoolVal(grp is not None), f"{q}:C13:group 'flow' written {tag}")
+        if grp is None:
+            return
+        I.depth += 1
+        try:
+            back = I.call_repo(load, None, [grp, Str("config")], {}, None, force_inline=True)
+        finally:
+            I.depth -= 1
+        enc = back.d.get("dtype") if isinstance(back, PyDict) else None
+        ok = isinstance(enc, PyDict) and isinstance(enc.d.get("dtype"), Str) and enc.d["dtype"].v == f"float{sh['actual']}"
+        p.prove(z3.BoolVal(ok), f"{q}:C13:C15:the stored configuration names the precision the flow actually uses (float{sh['actual']}), so a reload rebuilds it in that precision {tag}")
+
+
+class JaxFlowSaveDtype(TorchFlowSaveDtype):
+    qual = "flows.jax.flows:FlowJax.save"
+
+    def shapes(self):
+        return [{"cfg": c, "actual": w} for c in ("None", "float32", "float64") for w in (32, 64) if not (c == "float32" and w == 64) and not (c == "float64" and w == 32)]
+
+    def setup(self, I, shape):
+        from contracts.dtypes import dt, ns
+        from contracts.io import mk_group
+        cfgd = {"None": NONE, "float32": Str("float32"), "float64": Str("float64")}[shape["cfg"]]
+        cfg = PyDict({"dims": IV(z3.Int("dims")), "device": NONE, "dtype": cfgd, "data_transform": NONE, "key": Sym(z3.Const("jax_key", Misc), "key")})
+        assumed(I, "jax.random.key_data / equinox.partition / jax.tree_util.tree_flatten: opaque (the network parameters are outside this contract; none are written here)")
+        I.reg.handlers["jax.random.key_data"] = lambda I2, a, k, n: base_arr("key_data", "int", z3.IntVal(2))
+        I.reg.handlers["equinox.partition"] = lambda I2, a, k, n: Tup([Sym(z3.Const("flow_arrays", Misc), "pytree"), Sym(z3.Const("flow_static", Misc), "pytree")])
+        I.reg.handlers["equinox.is_array"] = lambda I2, a, k, n: B(True)
+        I.reg.consts["equinox.is_array"] = Sym(z3.Const("eqx_is_array", Misc), "fn")
+        I.reg.handlers["jax.tree_util.tree_flatten"] = lambda I2, a, k, n: Tup([PyList([]), Sym(z3.Const("treedef", Misc), "treedef")])
+        o = Obj("FlowJax", {"dtype": dt("np", shape["actual"]), "device": NONE, "_flow": Sym(z3.Const("flowjax_model", Misc), "pytree"), "xp": ns("jax"),
+                            "key": Sym(z3.Const("jax_key", Misc), "key")})
+        o.f["config_dict"] = Fn(lambda I2, a, k, n: PyDict(dict(cfg.d)), "config_dict(recorded constructor arguments)")
+        root = mk_group("/")
+        h5 = Obj("H5File", {"root": root, "mode": Str("a"), "closed": B(False), "path": Str("f.h5")})
+        return Pre(o, [h5], {}, ghost={"root": root, "shape": shape, "h5": h5})
